@@ -69,6 +69,9 @@ structure GenCfg where
   /-- `true` (original emitter): a non-nil pointer to an *empty* map or slice is not copied at all
       (`if len(*r) > 0 {` wraps the allocation): the copy holds a nil pointer where the source does not. -/
   copyEmptyPtrCollDropped : Bool := true
+  /-- `true` (original library): without a buffer AssignToStr renders a scalar *behind* the old content
+      of the destination string (`Assign(&"abc", 5)` yields "abc5"). -/
+  strAppendsOld : Bool := true
 deriving Repr, Inhabited
 
 /-- The configuration that mirrors the tree as it is (flags flip when a `fix:` commit lands). -/
@@ -92,6 +95,7 @@ def GenCfg.fixed : GenCfg where
   copyNilDestPanics := false
   resetNilPtrPanics := false
   copyEmptyPtrCollDropped := false
+  strAppendsOld := false
 
 /-- After the nested block of a non-basic node: the "special case to take value by pointer"
 (compiler.go:964-975). Not emitted for the root (`v != "x"`). -/
